@@ -368,7 +368,9 @@ fn ordinary_len(rng: &mut Rng, cfg: &GenCfg) -> usize {
     // a constant of /repo's sources as a string length (srcdict.rs)
     let cap = if crate::srcdict::focus() != crate::srcdict::Focus::None { 70_000 } else { 5_000 };
     if let Some(c) = crate::srcdict::int_le(rng, cap, 48) {
-        return c as usize;
+        if crate::srcdict::take_bytes(c as usize) {
+            return c as usize;
+        }
     }
     if rng.chance(1, 50) {
         // lengths at which 8-bit / 16-bit lengths, stack buffers and 'short string' paths change
@@ -509,6 +511,13 @@ fn gen_information(rng: &mut Rng, cfg: &GenCfg, for_continue: bool) -> Option<Co
         "* OK fake",
         "]",
         "text [ALERT] inside",
+        " leading space",
+        "  two leading spaces",
+        " ",
+        "  ",
+        " [ALERT] after a space",
+        "\ttab first",
+        "ends with bracket]",
     ];
     let mut s: String = if rng.bool() {
         rng.pick(COMMON).to_string()
@@ -575,7 +584,38 @@ pub fn gen_mailbox(rng: &mut Rng, cfg: &GenCfg) -> Cow<'static, str> {
         "NIL",
         "inbo",
     ];
-    let s = if rng.chance(2, 5) { rng.pick(COMMON).to_string() } else { gen_utf8(rng, cfg) };
+    let s = if rng.chance(1, 6) {
+        return gen_inbox_relative(rng, cfg, None);
+    } else if rng.chance(2, 5) {
+        rng.pick(COMMON).to_string()
+    } else {
+        gen_utf8(rng, cfg)
+    };
+    if eq_ci(&s, "INBOX") {
+        Cow::Borrowed("INBOX")
+    } else {
+        cow_str(s)
+    }
+}
+
+/// names derived from the one special mailbox name: INBOX in any letter case followed by a hierarchy
+/// separator (the response's own delimiter if there is one) and a child name, or preceded by a parent,
+/// or extended without a separator.  Only `INBOX` itself is case-insensitive; all of these are ordinary
+/// names that must come back byte for byte.
+pub fn gen_inbox_relative(rng: &mut Rng, cfg: &GenCfg, delim: Option<&str>) -> Cow<'static, str> {
+    let inbox: String = "inbox".chars().map(|c| if rng.bool() { c.to_ascii_uppercase() } else { c }).collect();
+    let seps = ["/", ".", "", " ", "\\", "|", "//"];
+    let sep: String = match delim {
+        Some(d) if rng.chance(3, 4) => d.to_string(),
+        _ => rng.pick(&seps).to_string(),
+    };
+    const CHILDREN: &[&str] = &["Sent", "Drafts", "sub", "x", "", "INBOX", "inbox", "Sent Items", "a.b", "ü"];
+    let child = if rng.chance(3, 4) { rng.pick(CHILDREN).to_string() } else { gen_utf8(rng, cfg) };
+    let s = match rng.below(6) {
+        0 => format!("{}{}{}", child, sep, inbox),
+        1 => format!("{}{}{}{}{}", inbox, sep, child, sep, inbox),
+        _ => format!("{}{}{}", inbox, sep, child),
+    };
     if eq_ci(&s, "INBOX") {
         Cow::Borrowed("INBOX")
     } else {
@@ -1185,6 +1225,7 @@ fn kind_index(list: &[&str], name: &str) -> usize {
 }
 
 pub fn gen_response_kind(rng: &mut Rng, cfg: &GenCfg, kind: usize) -> Response<'static> {
+    crate::srcdict::reset_large();
     let name = KINDS[kind];
     if let Some(code) = name.strip_prefix("data_code_") {
         let idx = kind_index(CODE_KINDS, code);
@@ -1268,7 +1309,13 @@ pub fn gen_response_kind(rng: &mut Rng, cfg: &GenCfg, kind: usize) -> Response<'
                     Some(cow_str((c as char).to_string()))
                 }
             };
-            Response::MailboxData(MailboxDatum::List { name_attributes, delimiter, name: gen_mailbox(rng, cfg) })
+            let name = if rng.chance(1, 5) {
+                let d: Option<String> = delimiter.as_ref().map(|d| d.to_string());
+                gen_inbox_relative(rng, cfg, d.as_deref())
+            } else {
+                gen_mailbox(rng, cfg)
+            };
+            Response::MailboxData(MailboxDatum::List { name_attributes, delimiter, name })
         }
         "mailbox_search" | "mailbox_sort" => {
             let n = if rng.chance(1, 6) { 0 } else { rng.range(1, 8) as usize };
